@@ -51,9 +51,13 @@ func Run(rng *rand.Rand, maxSteps int, gateMu *sync.Mutex, allowBoth bool) *Scen
 	s.ErrorLog = logger{&logbuf, &logmu}
 	// half of the scenarios use implicit TLS; a connection may then stall in
 	// the handshake (accepted, no ClientHello yet) when the server is closed
-	implicit := rng.Intn(2) == 0
+	// (a third: a plaintext listener with STARTTLS, where a connection may stall
+	// in the handshake that follows the 220)
+	mode := rng.Intn(3)
+	implicit := mode == 0
+	starttls := mode == 2
 	var tcfg *tls.Config
-	if implicit {
+	if implicit || starttls {
 		cert, _ := drv.TLSMaterial()
 		tcfg = &tls.Config{Certificates: []tls.Certificate{cert}}
 		s.TLSConfig = tcfg
@@ -192,6 +196,15 @@ func Run(rng *rand.Rand, maxSteps int, gateMu *sync.Mutex, allowBoth bool) *Scen
 				// wait for the greeting so that the handler is registered
 				c.SetReadDeadline(time.Now().Add(2 * time.Second))
 				c.Read(buf)
+				if starttls && rng.Intn(2) == 0 {
+					// ask for the upgrade, get the 220, and never send a ClientHello
+					sc.Script[len(sc.Script)-1] = "dial(stalled-in-starttls-handshake)"
+					c.Write([]byte("EHLO stall.test\r\n"))
+					c.Read(buf)
+					c.Write([]byte("STARTTLS\r\n"))
+					c.Read(buf)
+					time.Sleep(time.Millisecond)
+				}
 				c.SetReadDeadline(time.Time{})
 			}
 			conns = append(conns, c)
